@@ -78,6 +78,7 @@ def histories(out: Outcome, rng, n_cases: int, thorough: bool):
         lines.append(f"x kn {w}")
         expect.append(None)
         ops = []
+        kept = []
         ref, accepted = None, []
         n_ops = rng.randint(w + 2, 3 * w + 12)
         for _ in range(n_ops):
@@ -90,7 +91,17 @@ def histories(out: Outcome, rng, n_cases: int, thorough: bool):
             if op == "fit":
                 n = 10001 if big and ref is None else rng.choice([2, 5, 10, 30, 64, 300, 1500] if thorough else [2, 5, 10, 30, 64, 300])
                 ref = sample(rng, n) if n < 10001 else [rng.gauss(0, 1) for _ in range(n)]
-                inc.fit(X=np.array(ref))
+                given = np.array(ref)
+                given.flags.writeable = rng.random() < 0.5          # the caller's array may be read-only; either way it is the caller's
+                before = given.tobytes()
+                try:
+                    inc.fit(X=given)
+                except Exception as e:  # noqa: BLE001
+                    out.violation(f"IncrementalKSTest.fit raised {type(e).__name__}: {e} on a {'writable' if given.flags.writeable else 'read-only'} 1-D array", rep)
+                    break
+                if given.tobytes() != before:
+                    out.violation("IncrementalKSTest.fit modified the caller's reference array in place", rep)
+                    break
                 ops.append(["fit", n if n > 64 else ref])
                 lines.append("x kf " + " ".join(f2h(x) for x in ref))
                 expect.append(None)
@@ -136,6 +147,13 @@ def histories(out: Outcome, rng, n_cases: int, thorough: bool):
                     break
                 rep = dict(rep, asymptotic=max(len(ref), w) > 10000)
                 expect.append(((float(res.statistic), float(res.p_value)), rep))
+                kept.append((res, float(res.statistic), float(res.p_value)))
+        # results handed out earlier still say what they said when they were returned (no object shared between the outputs of successive calls)
+        for j, (robj, s0, p0) in enumerate(kept):
+            if float(robj.statistic) != s0 or float(robj.p_value) != p0:
+                out.violation(f"IncrementalKSTest: result number {j + 1} of {len(kept)} read ({s0!r}, {p0!r}) when it was returned and reads "
+                              f"({float(robj.statistic)!r}, {float(robj.p_value)!r}) after later updates", {"window": w, "kind": "history", "ops": ops})
+                break
         out.case({"history": True, "window": w, "ops": len(ops), "rejected": sum(1 for e in expect if e and e[0] == "err:MissingFit"),
                   "h": hash(repr(ops)) & 0xFFFFFF})
     return lines, expect
